@@ -40,6 +40,20 @@ type faultyReader struct {
 	failed    bool
 	transient bool // the error is reported ONCE; afterwards the source delivers the rest of the stream as if nothing had happened
 	reported  bool
+	loop      []byte // bytes WRITTEN to the source (see c19Duplex): a loop-back device serves them once its own data has run out
+	written   int
+}
+
+// c19Duplex is the scripted source as a duplex device, which many real sources are (*bytes.Buffer, *os.File opened read-write, a
+// pipe or socket pair, bufio.ReadWriter): it also implements io.Writer, and what is written to it becomes readable when the
+// scripted data has run out. The contract of the statement does not change: the scripted stream is the randomness the CALLER
+// provided; if it ends too early the call must fail, whatever the library itself may have fed into the device.
+type c19Duplex struct{ *faultyReader }
+
+func (d c19Duplex) Write(p []byte) (int, error) {
+	d.loop = append(d.loop, p...)
+	d.written += len(p)
+	return len(p), nil
 }
 
 func (f *faultyReader) Read(p []byte) (int, error) {
@@ -56,6 +70,11 @@ func (f *faultyReader) Read(p []byte) (int, error) {
 	if f.transient && !f.reported && f.failAt >= 0 && f.pos >= limit {
 		f.reported = true
 		return 0, f.err
+	}
+	if (f.failed || f.pos >= limit) && len(f.loop) > 0 {
+		n := copy(p, f.loop)
+		f.loop = f.loop[n:]
+		return n, nil
 	}
 	if f.failed || f.pos >= limit {
 		f.failed = true
@@ -97,12 +116,16 @@ type c19Script struct {
 	chunks    []int
 	transient bool
 	viaGlobal bool // install the scripted source as crypto/rand.Reader and hand THAT variable to the library
+	duplex    bool // hand the source over as a duplex device (it also implements io.Writer, loop-back)
 }
 
 // c19Call runs the library call; with viaGlobal the scripted reader is first installed as the process-wide crypto/rand.Reader and the
 // library receives the value of that variable (what most callers pass). A call that has not returned after 60 s (four orders of
 // magnitude above its normal duration) on a source that keeps failing is reported as not terminating.
 func c19Call(s *c19Script, rd io.Reader, f func(io.Reader)) (pan interface{}, hung bool) {
+	if fr, ok := rd.(*faultyReader); ok && s.duplex {
+		rd = c19Duplex{fr}
+	}
 	if s.viaGlobal {
 		old := crand.Reader
 		crand.Reader = rd
@@ -283,6 +306,8 @@ func TestVerif_C19_Sign(t *testing.T) {
 		s.withData = gen.Bool(t, "withData")
 		s.transient = gen.Bool(t, "transient")
 		s.viaGlobal = gen.Uniform(t, "viaGlobal", 0, 3) == 0
+		s.duplex = gen.Uniform(t, "duplex", 0, 2) == 0
+		rec.Tally(fmt.Sprintf("source-is-duplex:%v", s.duplex))
 		rec.Tally(fmt.Sprintf("source-is-crypto/rand.Reader:%v", s.viaGlobal))
 		inside := s.failAt >= 0 && s.failAt%32 != 0 && s.failAt < s.need
 		nt := inside || (s.failAt >= 32 && len(c.Rejected) > 0) || s.chunks != nil
@@ -325,6 +350,8 @@ func TestVerif_C19_Keygen(t *testing.T) {
 		s.withData = gen.Bool(t, "withData")
 		s.transient = gen.Bool(t, "transient")
 		s.viaGlobal = gen.Uniform(t, "viaGlobal", 0, 3) == 0
+		s.duplex = gen.Uniform(t, "duplex", 0, 2) == 0
+		rec.Tally(fmt.Sprintf("source-is-duplex:%v", s.duplex))
 		rec.Tally(fmt.Sprintf("source-is-crypto/rand.Reader:%v", s.viaGlobal))
 		inside := s.failAt >= 0 && s.failAt%32 != 0 && s.failAt < s.need
 		nt := inside || (s.failAt >= 32 && nrej > 0) || s.chunks != nil
